@@ -1,13 +1,16 @@
 """C05 — outputs do not depend on field order or on spelling out Not Defined."""
 from __future__ import annotations
 
+import json
+
 from .. import core, obs
 from ..core import VOCAB
 
 RULE = ("accepted vectors of every version x variants: random permutations of the fields, optional metrics added "
         "as explicit Not Defined, explicit Not Defined fields removed; all of scores, severities, clean vector, "
         "RH vector, sub-vectors, ==, hash compared between variants on the real code, and model-vs-code; "
-        "distinct = distinct (version, variant string)")
+        "distinct = distinct (version, variant string)"
+        " + special families and systematic field orders (official, the library's own table orders, alphabetical, reversed, rotated groups); a quarter of the constructions preceded by the same string, a quarter (v3) by the other-minor twin")
 ASSUMPTIONS = []
 MASK = {"2": "svcrte", "3": "svcnrte", "4": "svcnr"}
 
@@ -93,7 +96,7 @@ def run(ctx):
             ctx.violation("v%s:valid-vector-rejected" % ver, "accepted vector rejected", vs[0], "accepted", e0,
                           replay={"ver": ver, "a": vs[0], "b": vs[0]})
             continue
-        d0 = obs.observe(ver, o0, MASK[ver])
+        d0 = observe2(ver, o0)
         for x in vs[1:]:
             ctx.nontrivial((ver, x))
             o1, e1 = obs.construct(ver, x)
@@ -101,11 +104,12 @@ def run(ctx):
                 ctx.violation("v%s:variant-rejected:%s" % (ver, e1), "a permuted / ND-respelled variant of an accepted vector is rejected",
                               x, "accepted", e1, replay={"ver": ver, "a": vs[0], "b": x})
                 continue
-            d1 = obs.observe(ver, o1, MASK[ver])
-            for c in MASK[ver]:
+            d1 = observe2(ver, o1)
+            for c in d0:
                 if d0[c] != d1[c]:
-                    ctx.violation("v%s:%s-depends-on-spelling" % (ver, obs.NAMES[c]),
-                                  "%s differs between two spellings of the same vector" % obs.NAMES[c],
+                    nm = name_of(c)
+                    ctx.violation("v%s:%s-depends-on-spelling" % (ver, name_of(c).split(" (")[0]),
+                                  "%s differs between two spellings of the same vector" % nm,
                                   {"a": vs[0], "b": x}, d0[c], d1[c], replay={"ver": ver, "a": vs[0], "b": x})
             try:
                 if not (o0 == o1) or not (o1 == o0) or hash(o0) != hash(o1) or (o0 != o1):
@@ -117,6 +121,31 @@ def run(ctx):
                               replay={"ver": ver, "a": vs[0], "b": x})
 
 
+def name_of(c):
+    if c[0] == "j":
+        return "as_json() without vectorString"
+    return obs.NAMES[c[0]] + (" (asked again after every other accessor)" if len(c) > 1 else "")
+
+
+def observe2(ver, o):
+    """every observable in the fixed order, then every observable AGAIN in the reverse order: what an object shows must not
+    depend on the spelling even after all its other accessors were called"""
+    d = obs.observe(ver, o, MASK[ver])
+    # the JSON accessors are part of "every other accessor": the full documents are compared without the echoed input string,
+    # the minimal ones (whose group selection follows what the string mentions) are only called
+    for so in (False, True):
+        try:
+            full = dict(o.as_json(sort=so, minimal=False))
+            full.pop("vectorString", None)
+            d["j" + ("S" if so else "U")] = json.dumps(full, sort_keys=True)
+            o.as_json(sort=so, minimal=True)
+        except Exception as e:  # noqa
+            d["j" + ("S" if so else "U")] = "RAISED:%s" % type(e).__name__
+    for c, v in obs.observe(ver, o, MASK[ver][::-1]).items():
+        d[c + "2"] = v
+    return d
+
+
 def replay(data):
     r = data["replay"]
     ver = r["ver"]
@@ -124,7 +153,7 @@ def replay(data):
     ob, eb = obs.construct(ver, r["b"])
     if oa is None or ob is None:
         return False, "construct: %r -> %s, %r -> %s" % (r["a"], ea or "ok", r["b"], eb or "ok")
-    da, db = obs.observe(ver, oa, MASK[ver]), obs.observe(ver, ob, MASK[ver])
-    diff = {obs.NAMES[c]: (da[c], db[c]) for c in MASK[ver] if da[c] != db[c]}
+    da, db = observe2(ver, oa), observe2(ver, ob)
+    diff = {name_of(c): (da[c], db[c]) for c in da if da[c] != db[c]}
     ok = not diff and oa == ob and hash(oa) == hash(ob)
     return ok, "a=%r b=%r differing observables=%r eq=%s hash_eq=%s" % (r["a"], r["b"], diff, oa == ob, hash(oa) == hash(ob))
